@@ -64,6 +64,7 @@ type Scenario struct {
 }
 
 type SWorld struct {
+	setupRev    int64
 	setupMaxCas uint64
 	Cfg   Config
 	Extra []*rosmar.Bucket // further buckets to delete at teardown
